@@ -1,5 +1,384 @@
 import U3.Model.Timeout
+import U3.Lemmas.Timeout
+/-!
+# C19 — socket waits never exceed the configured timeouts
+
+All statements are for **all** integers (time in units of 2⁻¹⁰ s): every configured value, every
+clock value, every connect / send duration.  Vocabulary (`U3/Lemmas/Timeout.lean`):
+`TV.fin` (the bound a slot configures, `none` = ∞), `optMin`, `v.le b` ("`v` is at least as tight
+as slot `b`"), `connectSpec` / `readSpec` (the property's min-formulas), `wire` (the events that
+reach the OS: the connect-phase timeout and every `settimeout`), `elapsed` (time between
+`start_connect()` and the evaluation of `read_timeout` within the same request).
+
+Reading of "unset" (`_DEFAULT_TIMEOUT` / argument omitted): the slot configures no bound of its
+own; the system default (`gdt`) is what is applied when nothing else bounds the wait.
+
+Known finding (see `C19_sentinel_total_typeError`): `total` given *explicitly* as the sentinel
+together with a numeric `connect` makes `connect_timeout` raise `TypeError`; the request-level
+statements therefore carry the hypothesis `t.total ≠ .unset` (an omitted `total` is `None`).
+-/
 namespace U3.Props
 open U3 U3.Timeout
-theorem C19_placeholder : (1:Nat) = 1 := rfl
+
+/-! ## validation -/
+
+/-- A `Timeout` is built iff every argument is the sentinel, `None` or a positive number; then it
+stores exactly the arguments and its clock is unstarted; otherwise (zero, negative, boolean,
+non-number in any slot) the constructor raises `ValueError`. -/
+theorem C19_validation (total connect read : Arg) :
+    (total.Valid ∧ connect.Valid ∧ read.Valid →
+      ∃ t, mk total connect read = .ok t ∧ t.start = none ∧ t.total.toArg = total ∧
+        t.connect.toArg = connect ∧ t.read.toArg = read ∧ t.WF) ∧
+    (¬ (total.Valid ∧ connect.Valid ∧ read.Valid) → mk total connect read = .error .valueError) :=
+  ⟨fun h => mk_ok total connect read h.1 h.2.1 h.2.2, mk_err total connect read⟩
+
+/-- the individual invalid kinds, spelled out -/
+theorem C19_validation_kinds (q : Int) (b : Bool) :
+    (q ≤ 0 → ¬ (Arg.num q).Valid) ∧ ¬ (Arg.bool b).Valid ∧ ¬ Arg.nonNumber.Valid ∧
+    (0 < q → (Arg.num q).Valid) ∧ Arg.none.Valid ∧ Arg.unset.Valid := by
+  simp [Arg.Valid]
+
+/-- A legacy number given at request level is validated when the request builds its `Timeout`:
+an invalid one ends the request with `ValueError` before anything reaches a connection. -/
+theorem C19_validation_at_request (gdt : TV) (P : Timeout) (a : Arg) (conn : ConnSt)
+    (now cdur sdur : Int) (cl : Bool) (h : ¬ a.Valid) :
+    (urlopen gdt P (.num a) conn now cdur sdur cl).out = .exc .valueError ∧
+    (urlopen gdt P (.num a) conn now cdur sdur cl).evs = [] ∧
+    (makeRequest gdt P (.num a) conn now cdur sdur cl).out = .exc .valueError ∧
+    (makeRequest gdt P (.num a) conn now cdur sdur cl).evs = [] := by
+  have he : getTimeout P (.num a) = .error .valueError := by
+    simp only [getTimeout, fromFloat]
+    exact mk_err _ _ _ (fun hv => h hv.2.1)
+  simp [urlopen, makeRequest, he]
+
+example : ¬ (Arg.num 0).Valid ∧ ¬ (Arg.num (-512)).Valid ∧ ¬ (Arg.bool true).Valid := by
+  simp [Arg.Valid]
+example : mk .none (.num 2048) (.bool true) = .error .valueError := by rfl
+example : (mk (.num 10240) (.num 2048) .unset).toOption.map (·.connect) = some (.val 2048) := by rfl
+
+/-! ## the values -/
+
+/-- `connect_timeout` (after `resolve_default_timeout`) is min(connect, total). -/
+theorem C19_connect_eq_min (gdt : TV) (t : Timeout) (h : t.total ≠ .unset) :
+    ∃ v, connectTimeout t = .ok v ∧
+      resolveDefault gdt v =
+        (match optMin t.connect.fin t.total.fin with
+         | some m => .val m
+         | none => resolveDefault gdt t.connect) :=
+  connectTimeout_spec gdt t h
+
+example : connectTimeout ⟨.val 2048, .none, .val 512, none⟩ = .ok (.val 512) := by rfl
+example : connectTimeout ⟨.unset, .none, .val 512, none⟩ = .ok (.val 512) := by rfl
+example : resolveDefault (.val 3072) <$> connectTimeout ⟨.unset, .none, .none, none⟩ = .ok (.val 3072) := by rfl
+
+/-- the known finding at model level: an explicit sentinel as `total` with a numeric `connect` is
+accepted by the constructor, and `connect_timeout` then raises `TypeError` -/
+theorem C19_sentinel_total_typeError (c : Int) (hc : 0 < c) (read : Arg) (hr : read.Valid) :
+    ∃ t, mk .unset (.num c) read = .ok t ∧ connectTimeout t = .error .typeError := by
+  obtain ⟨t, h1, _, h3, h4, _, _⟩ := mk_ok .unset (.num c) read trivial hc hr
+  refine ⟨t, h1, ?_⟩
+  obtain ⟨cc, r, T, s⟩ := t
+  cases T <;> cases cc <;> simp_all [TV.toArg, connectTimeout]
+
+/-- `read_timeout` of a clock started at `s`, read at `now`, is
+min(read, max(0, total − (now − s))) — for every `now`, also one before `s`. -/
+theorem C19_read_eq_min_remaining (gdt : TV) (t : Timeout) (hw : t.WF) (s now : Int)
+    (hs : t.start = some s) (h : t.total ≠ .unset) :
+    readTimeout gdt t now = .ok
+      (match optMin t.read.fin (t.total.fin.map fun T => max 0 (T - (now - s))) with
+       | some m => .val m
+       | none => resolveDefault gdt t.read) :=
+  readTimeout_spec gdt t hw s now hs h
+
+example : readTimeout .none ⟨.none, .val 5120, .val 2048, some 100⟩ 356 = .ok (.val 1792) := by rfl
+example : readTimeout .none ⟨.none, .val 512, .val 2048, some 100⟩ 356 = .ok (.val 512) := by rfl
+example : readTimeout .none ⟨.none, .unset, .val 2048, some 100⟩ 9000 = .ok (.val 0) := by rfl
+example : (⟨.none, .val 5120, .val 2048, some 100⟩ : Timeout).WF := by simp [Timeout.WF, TV.WF]
+
+/-- What one request puts on the wire (`urlopen`, any connection state, any durations): exactly one
+connect-phase value — `create_connection`'s timeout on a new socket, `settimeout` before sending on
+a re-used one — equal to min(connect, total), then either `ReadTimeoutError` with nothing further
+(the remaining budget is 0) or exactly one `settimeout(min(read, total − elapsed))` before the
+response is awaited.  `t` is the Timeout that governs the request, `pv` the pool's own
+`connect_timeout`, only consulted to construct a connection object. -/
+theorem C19_request_wire (gdt : TV) (P : Timeout) (arg : TArg) (conn : ConnSt) (now cdur sdur : Int)
+    (cl : Bool) (t : Timeout) (hg : getTimeout P arg = .ok t) (ht : t.total ≠ .unset)
+    (pv : TV) (hp : conn = .noConn → connectTimeout P = .ok pv) :
+    ∀ r, r = urlopen gdt P arg conn now cdur sdur cl →
+    ∀ rt, rt = readSpec gdt t (elapsed conn cdur sdur) →
+    (rt = .val 0 → r.out = .exc .readTimeoutError ∧ wire r.evs = [firstEv conn (connectSpec gdt t)]) ∧
+    (rt ≠ .val 0 → r.out = .ok ∧ wire r.evs = [firstEv conn (connectSpec gdt t), .sockSet rt]) := by
+  obtain ⟨ctRaw, _, hu⟩ := urlopen_form gdt P arg conn now cdur sdur cl t hg ht pv hp
+  intro r hr rt hrt
+  rw [hu] at hr
+  subst hrt
+  constructor
+  · intro hz
+    rw [if_pos hz] at hr
+    subst hr
+    refine ⟨rfl, ?_⟩
+    show wire (newConnEvs gdt conn pv ++ (.setConn ctRaw :: .setConn (connectSpec gdt t) :: [firstEv conn (connectSpec gdt t)])) = _
+    rw [wire_pre]
+    cases conn <;> rfl
+  · intro hz
+    rw [if_neg hz] at hr
+    subst hr
+    refine ⟨rfl, ?_⟩
+    show wire (newConnEvs gdt conn pv ++ (.setConn ctRaw :: .setConn (connectSpec gdt t) ::
+      [firstEv conn (connectSpec gdt t), .setConn (readSpec gdt t (elapsed conn cdur sdur)),
+       .sockSet (readSpec gdt t (elapsed conn cdur sdur))])) = _
+    rw [wire_pre]
+    cases conn <;> rfl
+
+example :
+    let P : Timeout := ⟨.val 2048, .val 5120, .val 10240, none⟩
+    (urlopen .none P .dflt .noConn 1000 1024 0 false).out = .ok ∧
+    wire (urlopen .none P .dflt .noConn 1000 1024 0 false).evs = [.connect (.val 2048), .sockSet (.val 5120)] := by
+  decide
+
+/-- Never negative: whatever a request assigns to `conn.timeout`, passes to `create_connection` or
+to `settimeout` is `None` or a number ≥ 0 (given a non-negative system default), for all — also
+negative — durations. -/
+theorem C19_nonneg (gdt : TV) (hgd : gdt.nonneg) (hgu : gdt ≠ .unset) (P : Timeout) (arg : TArg) (conn : ConnSt)
+    (now cdur sdur : Int) (cl : Bool) (t : Timeout) (hg : getTimeout P arg = .ok t)
+    (ht : t.total ≠ .unset) (pv : TV) (hp : conn = .noConn → connectTimeout P = .ok pv) :
+    ∀ e ∈ wire (urlopen gdt P arg conn now cdur sdur cl).evs, e.value.nonneg ∧ e.value ≠ .unset := by
+  have hw := (getTimeout_unstarted hg).2
+  have h := C19_request_wire gdt P arg conn now cdur sdur cl t hg ht pv hp _ rfl _ rfl
+  have hc := connectSpec_nonneg gdt t hw hgd
+  have hr := readSpec_nonneg gdt t hw hgd (elapsed conn cdur sdur)
+  have hcu : connectSpec gdt t ≠ .unset := by
+    obtain ⟨c, r, T, s⟩ := t
+    cases T <;> cases c <;> cases gdt <;> simp_all [connectSpec, optMin, TV.fin, resolveDefault, TV.nonneg]
+  have hru : readSpec gdt t (elapsed conn cdur sdur) ≠ .unset := by
+    obtain ⟨c, r, T, s⟩ := t
+    cases T <;> cases r <;> cases gdt <;> simp_all [readSpec, optMin, TV.fin, resolveDefault, TV.nonneg]
+  have hf : (firstEv conn (connectSpec gdt t)).value = connectSpec gdt t := by
+    unfold firstEv; split <;> rfl
+  by_cases hz : readSpec gdt t (elapsed conn cdur sdur) = .val 0
+  · intro e he
+    rw [(h.1 hz).2] at he
+    simp at he
+    subst he
+    rw [hf]; exact ⟨hc, hcu⟩
+  · intro e he
+    rw [(h.2 hz).2] at he
+    simp at he
+    rcases he with he | he
+    · subst he; rw [hf]; exact ⟨hc, hcu⟩
+    · subst he; exact ⟨hr, hru⟩
+
+/-- Never looser than configured (function level): the connect value respects `connect` and
+`total`; the read value of a started clock respects `read` and `total` whenever the clock has not
+run backwards. -/
+theorem C19_never_looser (gdt : TV) (t : Timeout) (hw : t.WF) (h : t.total ≠ .unset)
+    (s now : Int) (hs : t.start = some s) (hn : s ≤ now) :
+    (∃ v, connectTimeout t = .ok v ∧ (resolveDefault gdt v).le t.connect ∧ (resolveDefault gdt v).le t.total) ∧
+    (∃ v, readTimeout gdt t now = .ok v ∧ v.le t.read ∧ v.le t.total) := by
+  obtain ⟨v, hv, hsp⟩ := connectTimeout_spec gdt t h
+  refine ⟨⟨v, hv, ?_⟩, ⟨_, readTimeout_spec gdt t hw s now hs h, readSpec_le gdt t hw (now - s) (by omega)⟩⟩
+  rw [hsp]
+  exact connectSpec_le gdt t
+
+example : (TV.val 1792).le (.val 5120) ∧ (TV.val 1792).le (.val 2048) ∧ ¬ (TV.none).le (.val 5) ∧
+    ¬ (TV.val 6).le (.val 5) ∧ (TV.none).le .none := by
+  simp [TV.le]
+
+/-- Never looser than configured (request level): for non-negative durations every value a request
+puts on the wire respects `total`; the connect-phase value also respects `connect`; the value
+under which the response is awaited also respects `read`. -/
+theorem C19_never_looser_request (gdt : TV) (P : Timeout) (arg : TArg) (conn : ConnSt)
+    (now cdur sdur : Int) (cl : Bool) (hcd : 0 ≤ cdur) (hsd : 0 ≤ sdur)
+    (t : Timeout) (hg : getTimeout P arg = .ok t) (ht : t.total ≠ .unset)
+    (pv : TV) (hp : conn = .noConn → connectTimeout P = .ok pv) :
+    ∀ r, r = urlopen gdt P arg conn now cdur sdur cl →
+    (∀ e ∈ wire r.evs, e.value.le t.total) ∧
+    (∀ e, (wire r.evs)[0]? = some e → e.value.le t.connect) ∧
+    (r.out = .ok → ∀ e, (wire r.evs)[1]? = some e → e.value.le t.read) := by
+  have hw := (getTimeout_unstarted hg).2
+  have h := C19_request_wire gdt P arg conn now cdur sdur cl t hg ht pv hp _ rfl _ rfl
+  have hc := connectSpec_le gdt t
+  have hr := readSpec_le gdt t hw (elapsed conn cdur sdur) (elapsed_nonneg conn cdur sdur hcd hsd)
+  have hf : (firstEv conn (connectSpec gdt t)).value = connectSpec gdt t := by
+    unfold firstEv; split <;> rfl
+  intro r hr
+  subst hr
+  by_cases hz : readSpec gdt t (elapsed conn cdur sdur) = .val 0
+  · have h1 := (h.1 hz)
+    have hwr := h1.2
+    have hout := h1.1
+    rw [hwr]
+    refine ⟨?_, ?_, ?_⟩
+    · intro e he; simp at he; subst he; rw [hf]; exact hc.2
+    · intro e he; simp at he; subst he; rw [hf]; exact hc.1
+    · intro ho; rw [hout] at ho; cases ho
+  · have h2 := (h.2 hz)
+    have hwr := h2.2
+    rw [hwr]
+    refine ⟨?_, ?_, ?_⟩
+    · intro e he
+      simp at he
+      rcases he with he | he
+      · subst he; rw [hf]; exact hc.2
+      · subst he; exact hr.2
+    · intro e he; simp at he; subst he; rw [hf]; exact hc.1
+    · intro _ e he; simp at he; subst he; exact hr.1
+
+/-- A remaining read budget of zero raises `ReadTimeoutError` without touching the socket again —
+and only then: with `total = T` the request is refused iff `T ≤ elapsed`; without a total never. -/
+theorem C19_zero_raises (gdt : TV) (hgd : gdt ≠ .val 0) (P : Timeout) (arg : TArg) (conn : ConnSt)
+    (now cdur sdur : Int) (cl : Bool) (t : Timeout) (hg : getTimeout P arg = .ok t)
+    (ht : t.total ≠ .unset) (pv : TV) (hp : conn = .noConn → connectTimeout P = .ok pv) :
+    ∀ r, r = urlopen gdt P arg conn now cdur sdur cl →
+    ((∃ T, t.total = .val T ∧ T ≤ elapsed conn cdur sdur) →
+        r.out = .exc .readTimeoutError ∧ (wire r.evs).length = 1 ∧ r.conn = .noConn) ∧
+    (¬ (∃ T, t.total = .val T ∧ T ≤ elapsed conn cdur sdur) → r.out = .ok ∧ (wire r.evs).length = 2) := by
+  have hw := (getTimeout_unstarted hg).2
+  have h := C19_request_wire gdt P arg conn now cdur sdur cl t hg ht pv hp _ rfl _ rfl
+  have hz := readSpec_zero_iff gdt t hw hgd (elapsed conn cdur sdur)
+  obtain ⟨ctRaw, _, hu⟩ := urlopen_form gdt P arg conn now cdur sdur cl t hg ht pv hp
+  intro r hr
+  subst hr
+  constructor
+  · intro hT
+    have h0 := hz.2 hT
+    have h1 := h.1 h0
+    refine ⟨h1.1, ?_, ?_⟩
+    · rw [h1.2]; rfl
+    · rw [hu, if_pos h0]
+  · intro hT
+    have h0 : readSpec gdt t (elapsed conn cdur sdur) ≠ .val 0 := fun e => hT (hz.1 e)
+    have h2 := h.2 h0
+    refine ⟨h2.1, ?_⟩
+    rw [h2.2]; rfl
+
+example :
+    let P : Timeout := ⟨.val 2048, .val 5120, .val 10240, none⟩
+    (urlopen .none P .dflt .noConn 7 20480 0 false).out = .exc .readTimeoutError ∧
+    wire (urlopen .none P .dflt .noConn 7 20480 0 false).evs = [.connect (.val 2048)] := by
+  decide
+
+/-! ## request level overrides pool level -/
+
+/-- Which Timeout governs a request (the `t` of the request-level theorems): without a request-level
+value the pool's configuration, with a `Timeout` object exactly that object's configuration, with a
+legacy number `a` the configuration `Timeout(connect=a, read=a)` — in every case with a fresh,
+unstarted clock. -/
+theorem C19_governing_timeout (P u : Timeout) (a : Arg) :
+    (P.WF → getTimeout P .dflt = .ok { P with start := none }) ∧
+    (u.WF → getTimeout P (.tobj u) = .ok { u with start := none }) ∧
+    (a.Valid → ∃ v, validateTimeout a = .ok v ∧ v.toArg = a ∧
+        getTimeout P (.num a) = .ok ⟨v, v, .none, none⟩) := by
+  refine ⟨fun h => clone_ok P h, fun h => clone_ok u h, fun h => ?_⟩
+  obtain ⟨v, hv, hva, _⟩ := validate_ok a h
+  have hn : validateTimeout .none = .ok .none := rfl
+  exact ⟨v, hv, hva, by simp only [getTimeout, fromFloat, mk, hv, hn]⟩
+
+example : (⟨.val 2048, .val 5120, .val 10240, some 77⟩ : Timeout).WF := by simp [Timeout.WF, TV.WF]
+
+/-- With a request-level timeout (a `Timeout` object or a legacy number) the outcome, the wire
+events, the clock and the connection state do not depend on the pool's Timeout at all (which is
+only consulted for the constructor argument of a new connection object, overwritten before use). -/
+theorem C19_request_overrides_pool (gdt : TV) (P₁ P₂ : Timeout) (arg : TArg) (harg : arg ≠ .dflt)
+    (conn : ConnSt) (now cdur sdur : Int) (cl : Bool)
+    (pv₁ pv₂ : TV) (hp₁ : connectTimeout P₁ = .ok pv₁) (hp₂ : connectTimeout P₂ = .ok pv₂) :
+    ∀ r₁ r₂, r₁ = urlopen gdt P₁ arg conn now cdur sdur cl → r₂ = urlopen gdt P₂ arg conn now cdur sdur cl →
+    r₁.out = r₂.out ∧ wire r₁.evs = wire r₂.evs ∧ r₁.now = r₂.now ∧ r₁.conn = r₂.conn ∧
+    (conn ≠ .noConn → r₁ = r₂) := by
+  have hgt : getTimeout P₁ arg = getTimeout P₂ arg := by
+    cases arg <;> simp_all [getTimeout]
+  have hmr : ∀ a', a' ≠ TArg.dflt → ∀ c, makeRequest gdt P₁ a' c now cdur sdur cl = makeRequest gdt P₂ a' c now cdur sdur cl := by
+    intro a' ha' c
+    have : getTimeout P₁ a' = getTimeout P₂ a' := by cases a' <;> simp_all [getTimeout]
+    simp only [makeRequest, this]
+  intro r₁ r₂ e1 e2
+  unfold urlopen at e1 e2
+  rw [← hgt] at e2
+  cases hgx : getTimeout P₁ arg with
+  | error e =>
+    simp only [hgx] at e1 e2
+    subst e1 e2
+    simp
+  | ok tobj =>
+    simp only [hgx, hp₁, hp₂] at e1 e2
+    rw [← hmr (.tobj tobj) (by simp)] at e2
+    cases hct : connectTimeout tobj with
+    | error e =>
+      simp only [hct] at e1 e2
+      by_cases hn : conn = .noConn
+      · subst hn
+        simp only [if_true] at e1 e2
+        subst e1 e2
+        simp [wire, isWire]
+      · simp only [hn, if_false] at e1 e2
+        subst e1 e2
+        simp
+    | ok ctRaw =>
+      simp only [hct] at e1 e2
+      by_cases hn : conn = .noConn
+      · subst hn
+        simp only [if_true] at e1 e2
+        subst e1 e2
+        simp [wire, isWire]
+      · simp only [hn, if_false] at e1 e2
+        subst e1 e2
+        simp
+
+example :
+    let P₁ : Timeout := ⟨.val 7168, .val 7168, .val 7168, none⟩
+    let P₂ : Timeout := ⟨.none, .none, .none, none⟩
+    let t : Timeout := ⟨.val 512, .val 2048, .none, none⟩
+    wire (urlopen .none P₁ (.tobj t) .noConn 0 256 0 false).evs = [.connect (.val 512), .sockSet (.val 2048)] ∧
+    wire (urlopen .none P₂ (.tobj t) .noConn 0 256 0 false).evs = [.connect (.val 512), .sockSet (.val 2048)] ∧
+    wire (urlopen .none P₁ .dflt .noConn 0 256 0 false).evs = [.connect (.val 7168), .sockSet (.val 6912)] := by
+  decide
+
+/-! ## clock isolation -/
+
+/-- (a) a clone is unstarted, whatever the state of the original; (b) the Timeout a request works
+with is unstarted and well-formed even if the pool's or the caller's object had been started;
+(c) a request changes neither the pool's Timeout nor any Timeout object held by the caller — over
+any sequence of operations the pool's own clock stays unstarted and a caller's object is started
+only by the caller; (d) the absolute clock value at which a request begins (hence everything that
+happened in earlier requests and between requests) has no influence on what the request applies
+or how it ends. -/
+theorem C19_clock_isolation :
+    (∀ t t', clone t = .ok t' → t'.start = none) ∧
+    (∀ P arg t, getTimeout P arg = .ok t → t.start = none ∧ t.WF) ∧
+    (∀ (p : Pool) u a cd sd cl, (step p (.req u a cd sd cl)).1.timeout = p.timeout ∧
+        (step p (.req u a cd sd cl)).1.objs = p.objs) ∧
+    (∀ (p : Pool) (ops : List Op), p.timeout.start = none → (run p ops).timeout.start = none) ∧
+    (∀ gdt P arg conn now now' cd sd cl,
+        (urlopen gdt P arg conn now cd sd cl).evs = (urlopen gdt P arg conn now' cd sd cl).evs ∧
+        (urlopen gdt P arg conn now cd sd cl).out = (urlopen gdt P arg conn now' cd sd cl).out ∧
+        (urlopen gdt P arg conn now cd sd cl).conn = (urlopen gdt P arg conn now' cd sd cl).conn ∧
+        (urlopen gdt P arg conn now cd sd cl).now - now = (urlopen gdt P arg conn now' cd sd cl).now - now') := by
+  refine ⟨fun t t' h => (clone_unstarted h).1, fun P arg t h => getTimeout_unstarted h, ?_, ?_, ?_⟩
+  · intro p u a cd sd cl
+    simp only [step]
+    split <;> simp
+  · intro p ops
+    induction ops generalizing p with
+    | nil => intro h; exact h
+    | cons o ops ih =>
+      intro h
+      simp only [run, List.foldl_cons]
+      apply ih
+      cases o <;> simp only [step]
+      all_goals (repeat' split) <;> simp_all
+      all_goals first
+        | exact (mk_wf (by assumption)).2
+        | skip
+  · intro gdt P arg conn now now' cd sd cl
+    exact urlopen_shift gdt P arg conn now now' cd sd cl
+
+example :
+    let p := run init [.pool (.num 10240) .unset .unset, .req true .dflt 5120 0 false, .adv 102400,
+                       .req true .dflt 0 0 false]
+    p.timeout.start = none ∧ p.conn = .alive ∧
+    (step p (.req true .dflt 0 0 false)).2 =
+      .res [.setConn (.val 10240), .setConn (.val 10240), .sockSet (.val 10240), .setConn (.val 10240),
+            .sockSet (.val 10240)] .ok := by
+  decide
+
 end U3.Props
